@@ -160,7 +160,9 @@ def run(prop: str, tier: str, seed: int, replay: str | None, scratch: str) -> in
         ctx.diverge("correspondence-crash", corr_error[:300], {"error": corr_error})
 
     # 4. direct property predicates on the real code (cheap; give the concrete replays) ---
-    deep = bool(broken or ctx.divergences)
+    # VERIF_FORCE_DEEP=1 runs the failing-input search at full depth on a tree where nothing is broken (used to
+    # shake latent false alarms out of the deep generators: they must hold on the unchanged tree too)
+    deep = bool(broken or ctx.divergences or os.environ.get("VERIF_FORCE_DEEP") == "1")
     ctx.deep_search = deep
     try:
         mod.predicates(ctx)
